@@ -182,6 +182,84 @@ pub fn run(thorough: bool, seed: u64, _replay: Option<String>) -> Report {
             }
         }
     }
+    // (1b) against a brand-new process: state a history leaves behind need not live in the memo caches (and then the
+    // cache-flush hook does not reach it). Documents that declare / mark their encoding are detected, then texts without
+    // any declaration; every answer of this process – which has the whole history above behind it – is compared with
+    // the answer of a process that has seen nothing else.
+    {
+        let declared: Vec<Vec<u8>> = vec![
+            b"<html><head><meta charset=\"windows-1252\"></head><body>Fran\xe7ois a d\xe9j\xe0 mang\xe9 tout le g\xe2teau, na\xefvement.</body></html>".to_vec(),
+            b"<?xml version=\"1.0\" encoding=\"iso-8859-15\"?><a>d\xe9j\xe0 vu, cr\xe8me br\xfbl\xe9e</a>".to_vec(),
+            b"# -*- coding: windows-1251 -*-\n# \xcf\xf0\xe8\xe2\xe5\xf2, \xec\xe8\xf0! \xdd\xf2\xee \xf2\xe5\xf1\xf2.\n".to_vec(),
+            b"<meta charset=\"koi8-r\">\xf0\xd2\xc9\xd7\xc5\xd4, \xcd\xc9\xd2! \xfc\xd4\xcf \xd4\xc5\xd3\xd4.".to_vec(),
+            b"<meta charset=\"windows-1258\">Fran\xe7ois a d\xe9j\xe0 mang\xe9".to_vec(),
+            {
+                let mut b = vec![0xff, 0xfe];
+                b.extend("Bonjour, ça va très bien. Déjà vu.".encode_utf16().flat_map(|u| u.to_le_bytes()));
+                b
+            },
+            {
+                let mut b = vec![0x84, 0x31, 0x95, 0x33];
+                b.extend(enc_bytes_lossy("你好，世界。这是一个测试。", "gb18030"));
+                b
+            },
+        ];
+        let plain: Vec<Vec<u8>> = vec![
+            enc_bytes_lossy(&stretch(&mut rng, TEXTS[1].1, 300), "iso-8859-1"),
+            enc_bytes_lossy(&stretch(&mut rng, TEXTS[2].1, 300), "windows-1251"),
+            enc_bytes_lossy(&stretch(&mut rng, TEXTS[2].1, 300), "koi8-r"),
+            enc_bytes_lossy(&stretch(&mut rng, TEXTS[3].1, 300), "iso-8859-7"),
+            enc_bytes_lossy(&stretch(&mut rng, TEXTS[5].1, 300), "windows-1250"),
+            b"Fran\xe7ois a d\xe9j\xe0 mang\xe9 tout le g\xe2teau, na\xefvement. Le c\x9cur a ses raisons que la raison ne conna\xeet point.".to_vec(),
+        ];
+        let sett = Sett::default();
+        let mut unanswered = 0;
+        for round in 0..(if thorough { 3 } else { 1 }) {
+            for (k, d) in declared.iter().enumerate() {
+                let _ = real_detect(d, &sett);
+                // after each declared document: a rotating pair of the undeclared texts (all of them in the thorough tier)
+                for (j, b) in plain.iter().enumerate() {
+                    if !thorough && (j + k + round) % 3 != 0 {
+                        continue;
+                    }
+                    let here = real_detect(b, &sett).show();
+                    match fresh_process_detect(b, &sett) {
+                        Some(fresh) => {
+                            rep.evaluations += 1;
+                            rep.oracle_checked += 1;
+                            rep.count("history:against-fresh-process");
+                            if fresh != here {
+                                rep.fail("oracle", "C11:answer-differs-from-a-fresh-process", &format!("after a history ending in a document that declares its encoding (#{}): {} || brand-new process: {}", k, here.chars().take(400).collect::<String>(), fresh.chars().take(400).collect::<String>()), b, Some(&sett), "fresh-process");
+                            }
+                        }
+                        None => unanswered += 1,
+                    }
+                }
+            }
+        }
+        // the pool, with the random histories behind it
+        for (k, c) in p.iter().enumerate() {
+            if !thorough && k % 3 != 0 {
+                continue;
+            }
+            let here = real_detect(&c.bytes, &c.sett).show();
+            match fresh_process_detect(&c.bytes, &c.sett) {
+                Some(fresh) => {
+                    rep.evaluations += 1;
+                    rep.oracle_checked += 1;
+                    rep.count("history:against-fresh-process");
+                    if fresh != here {
+                        rep.fail("oracle", "C11:answer-differs-from-a-fresh-process", &format!("pool item {} after the histories: {} || brand-new process: {}", k, here.chars().take(400).collect::<String>(), fresh.chars().take(400).collect::<String>()), &c.bytes, Some(&c.sett), "fresh-process");
+                    }
+                }
+                None => unanswered += 1,
+            }
+        }
+        if unanswered > 0 {
+            rep.notes.push(format!("{} fresh-process references could not be obtained (child process produced no answer)", unanswered));
+            rep.count_n("history:fresh-process-unanswered", unanswered);
+        }
+    }
     // (2) drive the bounded caches past their capacity (2048), then ask again
     let n_fill = if thorough { 1500 } else { 520 };
     for i in 0..n_fill {
